@@ -137,6 +137,7 @@ def thorough_extra(prop, module, ctx):
             if r.returncode != 0:
                 results.append({"variant": label, "outcome": "skipped (patch no longer applies)"})
                 continue
+            fv = None
             try:
                 fv = F.extract(ndebug=True, repo=scratch)
                 cv = Ctx(prop, "thorough", fv)
@@ -146,6 +147,9 @@ def thorough_extra(prop, module, ctx):
                                 "reported": ["%s %s" % (o.rule, o.instance) for o in bad[:3]]})
             except AnalysisBroken as e:
                 results.append({"variant": label, "outcome": "no verdict (analysis broken)", "reason": str(e)[:200]})
+            finally:
+                if fv is not None:
+                    fv.discard()
         finally:
             shutil.rmtree(scratch, ignore_errors=True)
     ctx.extra["sensitivity"] = {"variants": len(results), "detected": sum(1 for r in results if r["outcome"] == "detected"),
